@@ -362,6 +362,9 @@ def _find_non_global_names(nodes):
             # We only want to check foo in foo.bar
             if node.type == 'trailer' and node.children[0] == '.':
                 continue
+            # In foo(bar=baz) only baz is a variable, bar names a parameter.
+            if node.type == 'argument' and len(children) == 3 and children[1] == '=':
+                children = children[2:]
 
             yield from _find_non_global_names(children)
 
